@@ -20,6 +20,9 @@ ST_TEXT = ("Store.tla is a file-system state machine (path -> configuration, con
   "(overwrites, two suffixes of one stem), checking ReallyCompressed and ReadAfterWrite on the model; behaviours are replayed in a temp directory and StoreTrace "
   "judges file existence, compression magic, column names/order, cells, dtype kinds, restriction = read-all-then-select, alias = method. ")
 CHECKS = {
+ "C18": dict(engine="GeoJSON",
+   text="GeoJSON.tla states the read / write / re-read laws on abstract feature collections (ReadOK: one row per feature in order, a column per key occurring anywhere with missing where absent or null, geometries unchanged; MetaOK; WriteOK with absent = null; re-read equal). GeoJSONMC enumerates every collection of <= 2 features x 3 keys x {absent, null, v1, v2} x geometries; collections (with extra top-level members of hostile names and arbitrary JSON values, several indents, plain and .gz) are dumped with json.dump, read, written, parsed back with json.load and re-read; judged by the GeoJSONTrace monitor.",
+   design="§3 C18", technique="TLA+ spec (GeoJSON) + TLC exhaustive enumeration of feature collections + monitor-style trace validation through real files"),
  "C13": dict(engine="Convert",
    text="Convert.tla states the boundary contract: one record per row, one field per column in order, the format's own null exactly at the missing positions and never a sentinel, and import(export) = identity on names, order, cells, missing mask and the dtype of bool/int/float/str columns with a value. ConvertMC enumerates every 2-column frame of 1-3 rows with every missing mask; each is converted through ListOfDicts, JSON text, pandas and Arrow for random kind assignments, the intermediate object being inspected with the foreign library's own API, and judged by the ConvertTrace monitor.",
    design="§3 C13", technique="TLA+ spec (Convert) + TLC exhaustive enumeration of frames/masks + monitor-style trace validation"),
@@ -71,6 +74,7 @@ CHECKS = {
    design="§3 C11", technique="TLA+ spec (VectorOps) + TLC exhaustive enumeration + monitor-style trace validation of real calls"),
 }
 ENGINES = [
+ dict(name="GeoJSON", path="spec/GeoJSON.tla", serves_properties=["C18"], kind_free_text="TLA+ read/write laws + GeoJSONMC + GeoJSONTrace"),
  dict(name="Convert", path="spec/Convert.tla", serves_properties=["C13"], kind_free_text="TLA+ boundary contract + ConvertMC + ConvertTrace"),
  dict(name="Store", path="spec/Store.tla", serves_properties=["C12", "C14"], kind_free_text="TLA+ file-system machine + StoreMC + StoreTrace"),
  dict(name="VectorCtor", path="spec/VectorCtor.tla", serves_properties=["C10"], kind_free_text="TLA+ construction/NA laws + VectorCtorMC + VectorCtorTrace monitor (TLC)"),
